@@ -401,6 +401,107 @@ fn boolean_part(run: &Run, k_max: usize, small_full: bool, full_vals: bool) -> A
     total
 }
 
+/// Part 3: `$` denotes the root of the document being queried, also when one parsed query is kept and the
+/// document held by one variable is replaced or updated in place between evaluations.
+fn kept_scoping_part(run: &Run) -> Acc {
+    use super::common::{check_obs, Mode, Outcome};
+    let items: Vec<Value> = vec![json!({"m": 1}), json!({"m": 2}), json!({"k": [{"p": 1}, {"p": 2}], "m": 1}), json!({"k": {"a": {"p": 1}}, "m": 2}), json!([{"p": 1}]), json!(1)];
+    let queries: Vec<&str> = vec![
+        "$.x[?$.u]",
+        "$.x[?!$.u]",
+        "$.x[?$.u&&@.m]",
+        "$.x[?!$.u||@.k]",
+        "$.x[?$.u==1]",
+        "$.x[?@.m==$.u]",
+        "$.x[?@.k[?$.u]]",
+        "$.x[?@.k[?!$.u&&@.p]]",
+        "$.x[?@.k[?@.p==$.u]]",
+        "$.x[?$.x[?@.m==$.u]]",
+        "$.x[?count($.u)==1]",
+        "$.x[?length($.u)==1]",
+        "$.x[?value($.u)==@.m]",
+        "$.x[?$.u[0]]",
+        "$.x[?$..p]",
+        "$..[?$.u]",
+        "$.x[*].k[?$.u]",
+    ];
+    let us: Vec<Option<Value>> = vec![None, Some(json!(1)), Some(json!(2)), Some(json!(null)), Some(json!([1])), Some(json!("a"))];
+    let wrap = |u: &Option<Value>| {
+        let mut m = Map::new();
+        if let Some(u) = u {
+            m.insert("u".into(), u.clone());
+        }
+        m.insert("x".into(), Value::Array(items.clone()));
+        Value::Object(m)
+    };
+    queries
+        .par_iter()
+        .map(|q| {
+            let mut acc = Acc::new();
+            let ast = rfc_parse(q).unwrap_or_else(|e| panic!("C05 scoping query {} must be valid: {:?}", q, e)).0;
+            let kept = match crate::imp::parse(q) {
+                Ok(Ok(jq)) => jq,
+                _ => {
+                    acc.bump("skipped_rejected_by_parser", 1);
+                    return acc;
+                }
+            };
+            // every ordered pair (and so every history of two root values) occurs in the walk over us x us; the
+            // document is replaced as a whole (mode 0) or its member `u` is updated in place (mode 1)
+            let mut slot = Value::Null;
+            let mut prev = Value::Null;
+            for mode in 0..2 {
+                for a in &us {
+                    for b in &us {
+                        for u in [a, b] {
+                            if mode == 0 || !slot.is_object() {
+                                slot.clone_from(&wrap(u));
+                            } else {
+                                let m = slot.as_object_mut().unwrap();
+                                match u {
+                                    Some(v) => {
+                                        // keep the member order of a freshly built document: `u` first
+                                        if m.contains_key("u") {
+                                            m.insert("u".into(), v.clone());
+                                        } else {
+                                            let x = m.remove("x").unwrap();
+                                            m.insert("u".into(), v.clone());
+                                            m.insert("x".into(), x);
+                                        }
+                                    }
+                                    None => {
+                                        m.shift_remove("u");
+                                    }
+                                }
+                            }
+                            let dc = DocCtx::new(&slot);
+                            let out = crate::imp::run_parsed(&kept, &slot, &dc.am);
+                            let mut tmp = Acc::new();
+                            acc.transitions += 1;
+                            match check_obs(run, &mut tmp, q, &ast, &dc, &out, Mode::Nodes, "scoping (kept parsed query)") {
+                                Outcome::Violation => {
+                                    acc.viol(
+                                        format!("{} parsed once: on a variable that held {} before and holds {} now it returns {}; {}", q, prev, slot, out.short(), tmp.first_violation().unwrap_or_default()),
+                                        json!({"kind": "kept-query", "class": "scoping (kept parsed query, document replaced or updated in place)", "query": q, "docs": [prev, slot]}),
+                                    );
+                                    return acc;
+                                }
+                                Outcome::Agree(k) => {
+                                    acc.evals += 1;
+                                    acc.nontrivial += k as u64;
+                                }
+                                _ => acc = acc.merge(tmp),
+                            }
+                            prev = slot.clone();
+                        }
+                    }
+                }
+            }
+            acc
+        })
+        .reduce(Acc::new, Acc::merge)
+}
+
 fn scoping_part(run: &Run, thorough: bool) -> Acc {
     // inner objects
     let mut pv: Vec<Option<Value>> = vec![None, Some(json!(1)), Some(json!(2)), Some(json!(null)), Some(json!("")), Some(json!([])), Some(json!({})), Some(json!([1])), Some(json!([2, 1]))];
@@ -520,10 +621,11 @@ pub fn run(tier: &str) -> i32 {
     let a = boolean_part(&run, k, false, false);
     let a2 = if run.thorough() { boolean_part(&run, 2, false, true) } else { boolean_part(&run, k, true, true) };
     let b = scoping_part(&run, run.thorough());
-    let acc = a.merge(a2).merge(b);
+    let c = kept_scoping_part(&run);
+    let acc = a.merge(a2).merge(b).merge(c);
     run.finish(
         acc,
-        "part 1: one cell = (formula, rendering, child valuation): every formula over three atoms with up to k binary connectives and every placement of `!`, rendered with minimal parentheses, fully parenthesised and with blanks, decided for all valuations of (p,q,r) (5^3 for the largest formulas, 8^3 for the smaller ones) by one packed query, for 4 atom assignments x 2 container kinds; oracles: reference model, and Boolean algebra over the implementation's own results for the atoms; part 2: one cell = (scoping query, root value, item); non-trivial = kept children",
+        "part 1: one cell = (formula, rendering, child valuation): every formula over three atoms with up to k binary connectives and every placement of `!`, rendered with minimal parentheses, fully parenthesised and with blanks, decided for all valuations of (p,q,r) (5^3 for the largest formulas, 8^3 for the smaller ones) by one packed query, for 4 atom assignments x 2 container kinds; oracles: reference model, and Boolean algebra over the implementation's own results for the atoms; part 2: one cell = (scoping query, root value, item); part 3: one parsed query kept over every ordered pair of root values held by one variable (document replaced, or its member updated in place); non-trivial = kept children",
         &["atoms' own results are taken from the implementation (model-independent compositionality check); they are checked against the model as formulas of size 0"],
         true,
         json!({"max_connectives": k}),
